@@ -64,7 +64,27 @@ func (a Aff) String() string {
 }
 
 type Bounds struct {
-	depth int
+	depth      int
+	narrowBusy map[ssa.Value]bool
+}
+
+// narrowIntRange: the value range of 8- and 16-bit integer types (arithmetic in them is checked for wrap-around).
+func narrowIntRange(t types.Type) (lo, hi int64, ok bool) {
+	b, isB := t.Underlying().(*types.Basic)
+	if !isB {
+		return 0, 0, false
+	}
+	switch b.Kind() {
+	case types.Uint8:
+		return 0, 255, true
+	case types.Int8:
+		return -128, 127, true
+	case types.Uint16:
+		return 0, 65535, true
+	case types.Int16:
+		return -32768, 32767, true
+	}
+	return 0, 0, false
 }
 
 // contractInterval: intervals of library results the engines trust (listed in the evidence).
@@ -158,6 +178,29 @@ func (b *Bounds) bound(v ssa.Value, upper bool) (Aff, bool) {
 	}
 	switch x := v.(type) {
 	case *ssa.BinOp:
+		// arithmetic in a narrow integer type wraps: unless both mathematical bounds provably stay inside the type's
+		// range, the result is anywhere in that range (27 + b for a byte b is 0 … 255, not 27 … 282)
+		if lo, hi, narrow := narrowIntRange(x.Type()); narrow && !b.narrowBusy[v] && (x.Op == token.ADD || x.Op == token.SUB || x.Op == token.MUL) {
+			if b.narrowBusy == nil {
+				b.narrowBusy = map[ssa.Value]bool{}
+			}
+			b.narrowBusy[v] = true
+			up, ok1 := b.bound(v, true)
+			dn, ok2 := b.bound(v, false)
+			delete(b.narrowBusy, v)
+			fits := false
+			if ok1 && ok2 {
+				uc, okU := evalConst(up, true)
+				lc, okL := evalConst(dn, false)
+				fits = okU && okL && lc >= lo && uc <= hi
+			}
+			if !fits {
+				if upper {
+					return affConst(hi), true
+				}
+				return affConst(lo), true
+			}
+		}
 		switch x.Op {
 		case token.ADD:
 			l, ok1 := b.bound(x.X, upper)
